@@ -7,7 +7,7 @@ SYMBOLS = ['a', 'b', 'foo', 'x1', 'top.sub.sig', 'v<3>', 'a_b', '_x', '.d', 'if'
            # user symbols spelled like the interpreter's own names for its operators are ordinary symbols
            'QUOTE', 'QUASIQUOTE', 'UNQUOTE', 'REL_EVAL', 'SLICE', 'ADD', 'Quote', 'name', 'value']
 STRINGS = ['', 'a', 'hello world', 'q"uote', 'back\\slash', 'new\nline', 'tab\there', 'mixed "\\" \n\t end', ';not a comment', '(parens)', "it's",
-           '\\n literal', 'C:\\new\\table', 'µs °C', '%d %s', 'Größe:\t5 µs\n', 'ü"q\\', 'a\\', 'C:\\tmp\\', '\\', 'é\n§ end']
+           '\\n literal', 'C:\\new\\table', 'µs °C', '%d %s', 'Größe:\t5 µs\n', 'ü"q\\', 'a\\', 'C:\\tmp\\', '\\', 'é\n§ end', 'astral \U0001F600 plane', '\U00010348"q']
 
 
 def esc(s):
